@@ -52,8 +52,20 @@ func c40Check(c *hist.Case, r *evid.Rec) []evid.Disc {
 		}
 		return
 	}
+	nestedIn := map[int][]hist.NestedSub{}
+	for _, n := range run.NestedAt {
+		nestedIn[n.Step] = append(nestedIn[n.Step], n)
+	}
 	for _, s := range run.Steps {
 		a := &s.A
+		// a subscription made from inside a handler while this step's message was being delivered: the broker had
+		// selected the receivers already, so whether the new subscription sees this message live is open; but if the
+		// message is retained and matches, the new subscription must get it one way or the other (live or by the replay
+		// that every new subscription is owed), and from the next step on it is an ordinary subscription
+		nestedIDs := map[int]bool{}
+		for _, n := range nestedIn[s.I] {
+			nestedIDs[n.ID] = true
+		}
 		switch a.Kind {
 		case "inline-sub":
 			k := c40Inline{a.InlineID, a.Filters[0].Filter}
@@ -133,6 +145,9 @@ func c40Check(c *hist.Case, r *evid.Rec) []evid.Disc {
 			}
 			desc := fmt.Sprintf("step %d: %s m%d on %q", s.I, a.String(), s.Tag, ti.Topic)
 			for id := range certain {
+				if nestedIDs[id] {
+					continue // subscribed (again) from inside a handler during this very delivery: replay and live call may both occur
+				}
 				switch got[id] {
 				case 1:
 					r.Label("inline-invoked")
@@ -149,12 +164,15 @@ func c40Check(c *hist.Case, r *evid.Rec) []evid.Disc {
 				}
 			}
 			for id := range ambiguous {
-				if got[id] == 0 {
+				if got[id] == 0 && !nestedIDs[id] {
 					ds = append(ds, evid.D("C40-inline-subscription-not-invoked", "%s: inline id %d holds several matching filters %v but was not called at all", desc, id, filtersOf(inl, id)))
 				}
 				r.Label("same-id-on-several-matching-filters")
 			}
 			for id, n := range got {
+				if nestedIDs[id] {
+					continue // judged below
+				}
 				if !certain[id] && !ambiguous[id] {
 					sig := "C40-inline-handler-called-without-matching-subscription"
 					for _, st := range run.Steps[:s.I] {
@@ -167,6 +185,20 @@ func c40Check(c *hist.Case, r *evid.Rec) []evid.Disc {
 			}
 			if len(certain) > 0 && len(inl) > len(certain) {
 				r.NonTrivial(fmt.Sprintf("%s|%d", caseKey(c), s.I))
+			}
+			for _, n := range nestedIn[s.I] {
+				if n.Err != "" {
+					ds = append(ds, evid.D("C40-inline-subscribe-error", "%s: Subscribe(%q, %d) from inside a handler returned %s", desc, n.Filter, n.ID, n.Err))
+					continue
+				}
+				r.Label("subscription-made-during-publish")
+				r.NonTrivial(fmt.Sprintf("%s|nested|%d", caseKey(c), s.I))
+				if n.Tag == s.Tag && ti.Retain && !ti.Empty && reftopic.MatchSub(n.Filter, ti.Topic) && !inl[c40Inline{n.ID, n.Filter}] {
+					r.Label("subscription-made-during-retained-publish")
+					if got[n.ID] == 0 {
+						ds = append(ds, evid.D("C40-subscription-made-during-retained-publish-never-gets-the-message", "%s (retained): Subscribe(%q, %d) was called from inside a handler while this message was being delivered; the message is retained and matches, yet the new handler was called neither live nor by its retained replay", desc, n.Filter, n.ID))
+					}
+				}
 			}
 			// regular clients, for publishes through the embedding API: who and at which QoS
 			if a.Kind == "inline-pub" {
@@ -209,6 +241,11 @@ func c40Check(c *hist.Case, r *evid.Rec) []evid.Disc {
 				}
 			}
 		}
+		for _, n := range nestedIn[s.I] {
+			if n.Err == "" {
+				inl[c40Inline{n.ID, n.Filter}] = true
+			}
+		}
 	}
 	return withTranscript(ds, run)
 }
@@ -241,7 +278,12 @@ func c40Gen(rt *rapid.T) *hist.Case {
 	action := rapid.Custom(func(rt *rapid.T) hist.Action {
 		switch rapid.IntRange(0, 13).Draw(rt, "kind") {
 		case 0, 1, 2:
-			return hist.Action{Kind: "inline-sub", InlineID: rapid.IntRange(1, 3).Draw(rt, "id"), Filters: []refmqtt.Filter{{Filter: pick(rt, "ifilter", filters)}}}
+			a := hist.Action{Kind: "inline-sub", InlineID: rapid.IntRange(1, 3).Draw(rt, "id"), Filters: []refmqtt.Filter{{Filter: pick(rt, "ifilter", filters)}}}
+			if rapid.IntRange(0, 3).Draw(rt, "nested") == 0 {
+				// the first message this handler sees makes it subscribe another id from inside the call
+				a.NestedID, a.NestedFilter = rapid.IntRange(4, 6).Draw(rt, "nid"), pick(rt, "nfilter", filters)
+			}
+			return a
 		case 3:
 			return hist.Action{Kind: "inline-unsub", InlineID: rapid.IntRange(1, 3).Draw(rt, "id"), Filters: []refmqtt.Filter{{Filter: pick(rt, "ifilter", filters)}}}
 		case 4, 5, 6, 7:
@@ -267,7 +309,7 @@ func c40Gen(rt *rapid.T) *hist.Case {
 }
 
 func TestC40(t *testing.T) {
-	r := evid.New("C40", "rapid: histories mixing the embedding API (Server.Subscribe / Unsubscribe with ids 1-3 on filters over an alphabet with '+', trailing '#', parent-level matches and $-topics; Server.Publish with QoS 0-2, retain, empty payload) with two regular clients (v3.1 / v3.1.1 / v5) that subscribe, unsubscribe and publish (retain) on the same filters and topics, server maximum QoS 0/1/2; a final two-ids-one-filter unsubscribe probe. Oracle: per publish (either origin) the set of inline ids whose handler ran == ids with a matching live filter (reference matcher), each once (an id holding several matching filters: at least once); never after that id's unsubscribe of its only matching filter; per Server.Subscribe the handler calls made during the call == the matching retained messages of the model, each once; per Server.Publish every connected client with a matching subscription receives exactly one copy at min(requested QoS, subscription QoS, server maximum), others none. Non-trivial = a publish with both matching and non-matching inline subscriptions, or an inline subscribe that replays retained messages; distinct by (history, step)")
+	r := evid.New("C40", "rapid: histories mixing the embedding API (Server.Subscribe / Unsubscribe with ids 1-3 on filters over an alphabet with '+', trailing '#', parent-level matches and $-topics; Server.Publish with QoS 0-2, retain, empty payload) with two regular clients (v3.1 / v3.1.1 / v5) that subscribe, unsubscribe and publish (retain) on the same filters and topics, server maximum QoS 0/1/2; a quarter of the inline subscriptions subscribe another id (4-6) from inside their handler the first time it is called, i.e. while the broker is delivering a message; a final two-ids-one-filter unsubscribe probe. Oracle: per publish (either origin) the set of inline ids whose handler ran == ids with a matching live filter (reference matcher), each once (an id holding several matching filters: at least once); never after that id's unsubscribe of its only matching filter; per Server.Subscribe the handler calls made during the call == the matching retained messages of the model, each once; per Server.Publish every connected client with a matching subscription receives exactly one copy at min(requested QoS, subscription QoS, server maximum), others none; a subscription made from inside a handler during the delivery of a retained message that it matches gets that message (live or by its retained replay) and is an ordinary subscription from the next step on. Non-trivial = a subscription made during a publish, or a publish with both matching and non-matching inline subscriptions, or an inline subscribe that replays retained messages; distinct by (history, step)")
 	defer r.Finish(t)
 	if evid.ReplayMode() {
 		evid.Replay(t, r, replayPath(), c40Check)
